@@ -80,6 +80,43 @@ def explore(ck, n, sc, np, xrun=True):
             w = sum(pinball(est[i][j], ys[i], taus[j]) for i in range(ns)) / ns
             if rel(gmean[j], w) > 1e-11 and abs(float(gmean[j]) - float(w)) > 1e-300:
                 ck.violation("other", f"mean_quantile_score column {j} = {float(gmean[j])!r}, expected {float(w)!r}", case)
+        # dtype glue: integer-valued estimates / observations passed with an integer dtype (and float32 where exactly
+        # representable) must score like the same values as float64 — the pinball loss of the VALUES, not of a cast
+        if ns <= 20:
+            ei = [[float(rng.randint(-6, 6)) for _ in taus] for _ in ys]
+            yi = [rng.choice([float(rng.randint(-6, 6)), rng.randint(-24, 24) / 4.0]) for _ in ys]
+            combos = [("int64", "float64"), ("int32", "float64"), ("float64", "float32"), ("int64", "float32"), ("float32", "float64")]
+            if all(float(v).is_integer() for v in yi):
+                combos += [("float64", "int64"), ("int64", "int64")]
+            dt_e, dt_y = rng.choice(combos)
+            cdt = {"fn": "quantile_score-dtype", "y_tau": ei, "y_test": yi, "taus": taus, "dtypes": [dt_e, dt_y]}
+            ck.case(key=("qs-dtype", dt_e, dt_y, ns, k, yi[0]), kind=f"qs/dtype/{dt_e}-{dt_y}")
+            try:
+                gd = np.asarray(sc.quantile_score(np.array(ei, dtype=dt_e), np.array(yi, dtype=dt_y), np.array(taus)))
+                gm = np.asarray(sc.mean_quantile_score(np.array(ei, dtype=dt_e), np.array(yi, dtype=dt_y), np.array(taus)))
+            except Exception as e:
+                ck.violation("other", f"quantile_score raised {type(e).__name__}: {e} for dtypes {dt_e}/{dt_y}", cdt)
+                gd = None
+            if gd is not None:
+                tolr = 1e-6 if "float32" in (dt_e, dt_y) else 1e-12
+                okd = gd.shape == (ns, k)
+                for i in range(ns):
+                    for j in range(k):
+                        w = float(pinball(ei[i][j], yi[i], taus[j]))
+                        okd = okd and abs(float(gd[i, j]) - w) <= tolr * max(abs(w), 1e-30) + (1e-30 if w == 0 else 0)
+                for j in range(k):
+                    w = float(sum(pinball(ei[i][j], yi[i], taus[j]) for i in range(ns)) / ns)
+                    okd = okd and abs(float(gm[j]) - w) <= 10 * tolr * max(abs(w), 1e-30) + (1e-30 if w == 0 else 0)
+                if not okd:
+                    ck.violation("other", f"quantile_score with dtypes y_tau {dt_e} / y_test {dt_y} differs from the pinball loss of the same values: {gd.tolist()[:3]}", cdt)
+            tp = np.array([float(rng.randint(1, 9)) for _ in range(ns)])
+            pp = tp + np.array([float(rng.randint(-3, 3)) for _ in range(ns)])
+            for dtp, dtt in (("int64", "int64"), ("int32", "float64"), ("float64", "int64")):
+                mi, bi = float(sc.mape(pp.astype(dtp), tp.astype(dtt))), float(sc.bias(pp.astype(dtp), tp.astype(dtt)))
+                if rel(mi, float(sc.mape(pp, tp))) > 1e-12 or abs(bi - float(sc.bias(pp, tp))) > 1e-10:
+                    ck.violation("other", f"mape/bias with dtypes {dtp}/{dtt} = ({mi!r}, {bi!r}) differ from the float64 result", {"fn": "mape/bias-dtype", "y_pred": pp.tolist(), "y_test": tp.tolist(), "dtypes": [dtp, dtt]})
+            numlib.pure_call(ck, np, sc.quantile_score, [y_tau, y_test, np.array(taus)], "quantile_score", case, rtol=1e-15)
+            numlib.pure_call(ck, np, sc.mean_quantile_score, [y_tau, y_test, np.array(taus)], "mean_quantile_score", case, rtol=1e-15)
         # the constant minimiser is a tau-quantile
         tau = taus[0]
         cands = sorted(set(ys))
@@ -124,6 +161,16 @@ def explore(ck, n, sc, np, xrun=True):
             ck.violation("other", f"mape = {m!r}, mean absolute percentage error is {float(wm)!r}", c2)
         if rel(b, wb) > 1e-9 and abs(b - float(wb)) > 1e-9 * float(wm):
             ck.violation("other", f"bias = {b!r}, mean relative error in percent is {float(wb)!r}", c2)
+        if ns <= 20:
+            numlib.pure_call(ck, np, sc.mape, [pred, truth], "mape", c2, rtol=1e-15)
+            numlib.pure_call(ck, np, sc.bias, [pred, truth], "bias", c2, rtol=1e-13)
+        # small magnitudes (trace-gas mixing ratios, SI water contents): relative scores do not care
+        tiny = rng.choice([1e-9, 1e-12, 1e-30, 1e-300 * 1e5])
+        tt_, pt_ = truth * tiny, pred * tiny
+        if np.all(tt_ != 0) and np.all(np.isfinite(tt_)):
+            wmt = sum(100 * abs(Fraction(float(t)) - Fraction(float(p))) / abs(Fraction(float(t))) for p, t in zip(pt_, tt_)) / ns
+            if rel(sc.mape(pt_, tt_), wmt) > 1e-9:
+                ck.violation("other", f"mape of values of magnitude {tiny} = {float(sc.mape(pt_, tt_))!r}, exact value {float(wmt)!r}", dict(c2, scale=tiny))
         if float(sc.mape(truth.copy(), truth)) != 0.0 or float(sc.bias(truth.copy(), truth)) != 0.0:
             ck.violation("other", "mape/bias of a perfect prediction is not 0", {"fn": "perfect", "y_test": truth.tolist()})
         p = rng.choice([0.0, 1.0, 12.5, 50.0, rng.uniform(0, 300)])
